@@ -178,7 +178,18 @@ func fireNext() bool {
 
 // Yield hands the baton to another task; a task calls it while it cannot
 // proceed (a blocked channel operation), so simulated time may pass too.
-func Yield() { yield(true) }
+func Yield() {
+	if ExternalYield != nil {
+		ExternalYield()
+		return
+	}
+	yield(true)
+}
+
+// ExternalYield, when set, replaces this package's own scheduler as the thing
+// a blocked channel operation hands over to: the parser world sets it to the
+// client scheduler of package simrt (there the "tasks" are the clients).
+var ExternalYield func()
 
 func yield(blocked bool) {
 	me := cur
